@@ -304,9 +304,9 @@ func copyLoop(c1 io.ReadWriteCloser, c2 io.ReadWriteCloser, shutdown chan struct
 // conn.RemoteAddr() inside this function, as a workaround for a hang that
 // otherwise occurs inside of conn.pc.RemoteDescription() (called by
 // RemoteAddr). https://bugs.torproject.org/18628#comment:8
-func (sf *SnowflakeProxy) datachannelHandler(conn *webRTCConn, remoteAddr net.Addr, relayURL string) {
+func (sf *SnowflakeProxy) datachannelHandler(conn *webRTCConn, remoteAddr net.Addr, relayURL string, release func()) {
 	defer conn.Close()
-	defer tokens.ret()
+	defer release()
 
 	if relayURL == "" {
 		relayURL = sf.RelayURL
@@ -341,10 +341,11 @@ func (sf *SnowflakeProxy) datachannelHandler(conn *webRTCConn, remoteAddr net.Ad
 type dataChannelHandlerWithRelayURL struct {
 	RelayURL string
 	sf       *SnowflakeProxy
+	release  func()
 }
 
 func (d dataChannelHandlerWithRelayURL) datachannelHandler(conn *webRTCConn, remoteAddr net.Addr) {
-	d.sf.datachannelHandler(conn, remoteAddr, d.RelayURL)
+	d.sf.datachannelHandler(conn, remoteAddr, d.RelayURL, d.release)
 }
 
 // Create a PeerConnection from an SDP offer. Blocks until the gathering of ICE
@@ -516,11 +517,15 @@ func (sf *SnowflakeProxy) runSession(sid string) {
 		return
 	}
 	dataChan := make(chan struct{})
-	dataChannelAdaptor := dataChannelHandlerWithRelayURL{RelayURL: relayURL, sf: sf}
+	// From here on the token is released exactly once, by whichever of this
+	// function and the data channel handler gets there first.
+	var once sync.Once
+	release := func() { once.Do(tokens.ret) }
+	dataChannelAdaptor := dataChannelHandlerWithRelayURL{RelayURL: relayURL, sf: sf, release: release}
 	pc, err := sf.makePeerConnectionFromOffer(offer, config, dataChan, dataChannelAdaptor.datachannelHandler)
 	if err != nil {
 		log.Printf("error making WebRTC connection: %s", err)
-		tokens.ret()
+		release()
 		return
 	}
 	err = broker.sendAnswer(sid, pc)
@@ -529,7 +534,7 @@ func (sf *SnowflakeProxy) runSession(sid string) {
 		if inerr := pc.Close(); inerr != nil {
 			log.Printf("error calling pc.Close: %v", inerr)
 		}
-		tokens.ret()
+		release()
 		return
 	}
 	// Set a timeout on peerconnection. If the connection state has not
@@ -543,7 +548,7 @@ func (sf *SnowflakeProxy) runSession(sid string) {
 		if err := pc.Close(); err != nil {
 			log.Printf("error calling pc.Close: %v", err)
 		}
-		tokens.ret()
+		release()
 	}
 }
 
